@@ -68,6 +68,8 @@ type OpSpec struct {
 	Omit int `json:"omit,omitempty"` // 0 none; k>0: number of required-field occurrences to damage
 	// C16: index of the shared value / buffer (-1: private)
 	Shared int `json:"shared"`
+	// Deep > 0: the value is a chain of that many nested structs (see DeepBase)
+	Deep int `json:"deep,omitempty"`
 }
 
 // Bank derives operations.
@@ -82,6 +84,8 @@ type Bank struct {
 	unkNC  []*model.StructDef // ... that also have a nocopy field
 	byst   []*model.StructDef
 	recur  []*model.StructDef
+	chains []*model.StructDef // definitions whose values can be chains through their own cluster; hand-written ones first
+	nchDes int
 	profID uint64
 }
 
@@ -94,6 +98,12 @@ const PanicBase = uint64(1) << 36
 
 // WrapBase + 2*k + n: C09's long-run operation on the k-th definition with required fields (see execWrap).
 const WrapBase = uint64(1) << 40
+
+// DeepBase + 4*k + d: an encode of a chain of 70 / 1030 / 1500 / 2100 nested structs (d) of the k-th definition that
+// contains itself: the extreme of the value space in the one dimension a size budget does not reach.
+const DeepBase = uint64(1) << 44
+
+var deepLevels = []int{70, 1030, 1500, 2100}
 
 // SysRejected is the first id of the systematic part of C13's bank.
 const SysRejected = uint64(1) << 32
@@ -133,6 +143,16 @@ func NewBank(prof string, c *model.Corpus) *Bank {
 		}
 		if s.Cluster >= 0 {
 			b.recur = append(b.recur, s)
+		}
+	}
+	for _, des := range []bool{true, false} {
+		for _, s := range b.valid {
+			if model.ChainLink(b.C, s) && designed(s) == des {
+				b.chains = append(b.chains, s)
+			}
+		}
+		if des {
+			b.nchDes = len(b.chains)
 		}
 	}
 	return b
@@ -269,6 +289,12 @@ func (b *Bank) Op(id uint64) (op OpSpec) {
 		k := int((id - SysRejected) % uint64(3*len(b.rej)))
 		op.Type, op.Kind = b.rej[k/3].Name, []string{"size", "enc", "dec"}[k%3]
 		op.Buf, op.Fault = "generous", "none"
+		return op
+	}
+	if id >= DeepBase && len(b.chains) > 0 {
+		k := id - DeepBase
+		op.Kind, op.Type, op.Buf, op.Fault = "enc", b.chains[int(k/4)%len(b.chains)].Name, "generous", "none"
+		op.Deep, op.Foreign = deepLevels[k%4], false
 		return op
 	}
 	if id >= WrapBase && len(b.reqs) > 0 {
@@ -1035,6 +1061,20 @@ func deriveC16(rs *RunSpec, b *Bank, r *model.Rng) {
 	rs.Rounds = 3 + r.Intn(4)
 	rs.Sched.StartAt = make([]int64, rs.Tasks*rs.Rounds)
 	slot, shared := 0, 0
+	recTask, recRound, recIdx, recK := -1, -1, 0, 0
+	// (its own stream: the rest of the history is what it would be without this sequence)
+	rr := model.NewRng(model.Mix(rs.Seed, rs.Corpus, uint64(rs.Run), 0x4ec0))
+	if len(b.chains) > 0 && rr.Chance(1, 3) {
+		recK = rr.Intn(len(b.chains))
+		if b.nchDes > 0 && rr.Chance(1, 2) {
+			recK = rr.Intn(b.nchDes) // the hand-written ones contain themselves directly
+		}
+		for i, s := range b.valid {
+			if s == b.chains[recK] {
+				recTask, recRound, recIdx = rr.Intn(rs.Tasks), rr.Intn(rs.Rounds-1), i
+			}
+		}
+	}
 	for round := 0; round < rs.Rounds; round++ {
 		nshared := 1 + r.Intn(3)
 		var sharedOps []uint64
@@ -1050,6 +1090,15 @@ func deriveC16(rs *RunSpec, b *Bank, r *model.Rng) {
 				rs.Sched.StartAt[round*rs.Tasks+t] = int64(r.Intn(60))
 			}
 			n := 3 + r.Intn(6)
+			if t == recTask && round == recRound {
+				// encodes of a definition that contains itself, around the encode of a very deep value of it: what
+				// the extreme call leaves behind in the definition's state meets the ordinary values again
+				f := FocusBase + uint64(recIdx)*FocusVariants
+				for _, id := range []uint64{f, f + 5, DeepBase + uint64(4*recK+rr.Intn(4)), f + 7, f} {
+					rs.Hist = append(rs.Hist, Step{Slot: slot, Task: t, Round: round, Op: id})
+					slot++
+				}
+			}
 			for i := 0; i < n; i++ {
 				st := Step{Slot: slot, Task: t, Round: round}
 				slot++
@@ -1103,8 +1152,12 @@ func Describe(c *model.Corpus, op *OpSpec) string {
 		s += " arg=" + op.Arg
 	}
 	if sd != nil && !sd.Rejected() && (op.Kind == "enc" || op.Kind == "dec" || op.Kind == "size" || op.Kind == "encplan") {
-		w := model.GenValue(c, sd, op.VSeed, model.VOpt{Budget: op.Budget, Foreign: op.Foreign})
-		s += " value=" + w.String()
+		w := model.GenValue(c, sd, op.VSeed, model.VOpt{Budget: op.Budget, Foreign: op.Foreign, Deep: op.Deep})
+		if op.Deep > 0 {
+			s += fmt.Sprintf(" value=(a chain %d levels deep)", w.Depth())
+		} else {
+			s += " value=" + w.String()
+		}
 	}
 	return s
 }
